@@ -13,8 +13,9 @@ def full(w):
 
 
 class IntervalInterp:
-    def __init__(self, P, max_paths=64):
+    def __init__(self, P, max_paths=64, fields=None):
         self.P = P; self.max_paths = max_paths
+        self.fields = fields or {}      # (argument number, byte offset) -> interval of the scalar field loaded from that parameter's pointee
 
     def run(self, f, args):
         """args: list of (lo, hi); returns (lo, hi) hull of all return values, and the list of per-path results"""
@@ -29,6 +30,13 @@ class IntervalInterp:
         if k == 'i': return env[v['id']]
         if k == 'a': return args[v['n']]
         raise IUnmodelled('interval domain: operand %s' % k)
+
+    def _val_ptr(self, f, env, args, v):
+        if v['k'] == 'a' and isinstance(args[v['n']], tuple) and args[v['n']][0] == 'ptr': return args[v['n']]
+        if v['k'] == 'i':
+            x = env.get(v['id'])
+            if isinstance(x, tuple) and x and x[0] == 'ptr': return x
+        return None
 
     def _run(self, f, args, depth):
         if depth > 4: raise IUnmodelled('interval domain: call depth')
@@ -95,7 +103,7 @@ class IntervalInterp:
                         else: r = (0, a[1])
                     env[i.id] = r
                 elif op in ('zext', 'bitcast'):
-                    env[i.id] = V(0)
+                    env[i.id] = self._val_ptr(f, env, args, i.ops[0]) or V(0)
                 elif op == 'trunc':
                     a = V(0)
                     if a[1] <= M: env[i.id] = a
@@ -138,6 +146,14 @@ class IntervalInterp:
                             return
                 elif op == 'ret':
                     out.append(V(0) if i.ops else (0, 0)); return
+                elif op == 'getelementptr' and not i.d['var_steps']:
+                    b = self._val_ptr(f, env, args, i.ops[0])
+                    env[i.id] = ('ptr', b[1], b[2] + i.d['const_off']) if b else None
+                elif op == 'load':
+                    b = self._val_ptr(f, env, args, i.ops[0])
+                    if b is None or (b[1], b[2]) not in self.fields:
+                        raise IUnmodelled('interval domain: load at %s' % i.loc)
+                    env[i.id] = self.fields[(b[1], b[2])]
                 elif op == 'call':
                     t = self.P.call_target(i)
                     if t[0] == 'direct' and t[1] in self.P.defined:
